@@ -73,6 +73,12 @@ class Analysis(af.Analysis):
         self.evals = 0
         self.hook = None
 
+    def __getstate__(self):
+        # samplers pickle the analysis into their checkpoints (dynesty): the fault injector of THIS run must not travel
+        state = dict(self.__dict__)
+        state["hook"] = None
+        return state
+
     def save_attributes(self, paths):
         # a user file written before the search starts (like data.json of a real analysis)
         paths.save_json("verif_attr", {"what": "attributes of the analysis"})
